@@ -19,7 +19,6 @@ META = {
                   "outcomes for unknown self types are not modelled (the property is about closed goals); lifetimes are erased. Unsize, "
                   "Pointee, DiscriminantKind, Fn* and Coroutine are other properties' business.",
     "design_ref": "DESIGN.md §4 C08",
-    "bins": ["solve", "rules"],
     "assumptions": [
         "lifetimes are erased in the model (generated programs cannot produce region constraints: impl headers use fresh lifetime parameters)",
         "the `rules` harness renders chalk_ir clauses faithfully; clauses with a FromEnv condition are ignored (empty environment)",
